@@ -14,6 +14,8 @@
 
 #include "c12_request.h"
 
+static std::string tmpdir_ok, tmpdir_bad;
+
 static std::string slurp(std::istream &in)
 {
 	std::string res;
@@ -36,9 +38,29 @@ std::string c12_file_str(cppcms::http::file &f)
 	return r;
 }
 
-static std::string tmpdir_ok, tmpdir_bad;
 
+static int count_left()
+{
+	int left=0;
+	if(DIR *d=opendir(tmpdir_ok.c_str())) {
+		while(dirent *e=readdir(d)) if(e->d_name[0]!='.') left++;
+		closedir(d);
+	}
+	return left;
+}
+
+static std::string run_mp_inner(std::vector<std::string> const &w);
+
+// every temporary file of the case must be gone once the parser and its files are destroyed
 static std::string run_mp(std::vector<std::string> const &w)
+{
+	std::string r=run_mp_inner(w);
+	int left=count_left();
+	if(left) r+=" TEMP-FILES-LEFT="+std::to_string(left);
+	return r;
+}
+
+static std::string run_mp_inner(std::vector<std::string> const &w)
 {
 	typedef cppcms::impl::multipart_parser mp;
 	std::string ct;
